@@ -122,4 +122,112 @@ theorem containers_unique (allTypes : List (String × LPType)) (allParams : List
           injection hstep with hstep; subst hstep
           exact ⟨assocSet_unique _ _ _ ha.1, assocSet_unique _ _ _ ha.2.1, ha.2.2⟩
 
+/-- The containers of `tbl` (in table order) that name `b` as their base. -/
+def basedOn (tbl : CLookup) (b : String) : List String :=
+  (tbl.filter (fun kv => kv.2.base == some b && b != "")).map (·.1)
+
+theorem basedOn_cons (kv : String × LContainer) (rest : CLookup) (n : String) :
+    basedOn (kv :: rest) n = (if kv.2.base == some n && n != "" then [kv.1] else []) ++ basedOn rest n := by
+  unfold basedOn
+  simp only [List.filter_cons]
+  split <;> simp
+
+/-- One step of the back-population: the base's list grows by the child's name; nothing else changes. -/
+def popStep (lk : CLookup) (kv : String × LContainer) : LoadM CLookup :=
+  match kv.2.base with
+  | some b =>
+    if b == "" then pure lk
+    else match lk.get? b with
+      | some bc => pure (lk.set b { bc with inheritors := bc.inheritors ++ [kv.1] })
+      | none => throw Err.other
+  | none => pure lk
+
+theorem populate_eq_fold (lookup : CLookup) : populateInheritors lookup = lookup.foldlM popStep lookup := rfl
+
+theorem popFold_spec (rest : CLookup) (lk lk' : CLookup) (h : rest.foldlM popStep lk = .ok lk') :
+    lk'.map (·.1) = lk.map (·.1) ∧
+    ∀ n c, lk.get? n = some c → ∃ c', lk'.get? n = some c' ∧
+      c'.inheritors = c.inheritors ++ basedOn rest n ∧ c'.base = c.base ∧ c'.name = c.name ∧ c'.entries = c.entries ∧
+      c'.abstract = c.abstract := by
+  induction rest generalizing lk with
+  | nil =>
+    simp [List.foldlM, pure, Except.pure] at h; subst h
+    exact ⟨rfl, fun n c hc => ⟨c, hc, by simp [basedOn], rfl, rfl, rfl, rfl⟩⟩
+  | cons kv rest ih =>
+    simp only [List.foldlM_cons, bind, Except.bind] at h
+    cases hstep : popStep lk kv with
+    | error e => simp [hstep] at h
+    | ok lk1 =>
+      simp only [hstep] at h
+      obtain ⟨ik, iv⟩ := ih lk1 h
+      unfold popStep at hstep
+      cases hb : kv.2.base with
+      | none =>
+        simp only [hb, pure, Except.pure] at hstep
+        injection hstep with hstep; subst hstep
+        refine ⟨ik, fun n c hc => ?_⟩
+        obtain ⟨c', h1, h2, h3⟩ := iv n c hc
+        exact ⟨c', h1, by rw [basedOn_cons, hb]; simpa using h2, h3⟩
+      | some b =>
+        simp only [hb] at hstep
+        by_cases hbe : (b == "") = true
+        · simp only [hbe, if_true, pure, Except.pure] at hstep
+          injection hstep with hstep; subst hstep
+          refine ⟨ik, fun n c hc => ?_⟩
+          obtain ⟨c', h1, h2, h3⟩ := iv n c hc
+          refine ⟨c', h1, ?_, h3⟩
+          rw [basedOn_cons, hb, h2]
+          have hbe' : b = "" := by simpa using hbe
+          by_cases hnb : n = b
+          · subst hnb; simp [hbe']
+          · have : (some b == some n) = false := by simpa using fun e => hnb e.symm
+            simp [this]
+        · simp only [hbe, Bool.false_eq_true, if_false] at hstep
+          cases hg : lk.get? b with
+          | none => simp [hg, throw, throwThe, MonadExceptOf.throw] at hstep
+          | some bc =>
+            simp only [hg, pure, Except.pure] at hstep
+            injection hstep with hstep; subst hstep
+            have hany : lk.any (·.1 == b) = true := (clookup_any_iff_get lk b).mpr (by simp [hg])
+            refine ⟨by rw [ik, clookup_keys_set lk b _ hany], fun n c hc => ?_⟩
+            by_cases hnb : n = b
+            · subst hnb
+              rw [hg] at hc; injection hc with hc; subst hc
+              obtain ⟨c', h1, h2, h3⟩ := iv n _ (clookup_get_set_same lk n _ hany)
+              refine ⟨c', h1, ?_, h3⟩
+              rw [h2, basedOn_cons, hb]
+              have : (n != "") = true := by simpa using hbe
+              simp [this]
+            · obtain ⟨c', h1, h2, h3⟩ := iv n c (by rw [clookup_get_set_other lk b n _ hany hnb]; exact hc)
+              refine ⟨c', h1, ?_, h3⟩
+              rw [h2, basedOn_cons, hb]
+              have : (some b == some n) = false := by simpa using fun e => hnb e.symm
+              simp [this]
+
+/-- After loading, each container's inheritor list is exactly the containers that name it as their base, each once,
+    in table order (the lists start empty: `loadContainer` creates every container with `inheritors := []`). -/
+theorem inheritors_exact (lookup lk' : CLookup) (h : populateInheritors lookup = .ok lk')
+    (hempty : ∀ kv ∈ lookup, kv.2.inheritors = []) :
+    lk'.map (·.1) = lookup.map (·.1) ∧
+    ∀ n c, lookup.get? n = some c → ∃ c', lk'.get? n = some c' ∧ c'.inheritors = basedOn lookup n ∧
+      c'.base = c.base ∧ c'.name = c.name ∧ c'.entries = c.entries ∧ c'.abstract = c.abstract := by
+  rw [populate_eq_fold] at h
+  obtain ⟨h1, h2⟩ := popFold_spec lookup lookup lk' h
+  refine ⟨h1, fun n c hc => ?_⟩
+  obtain ⟨c', g1, g2, g3⟩ := h2 n c hc
+  have hce : c.inheritors = [] := by
+    unfold CLookup.get? at hc
+    cases hf : lookup.find? (·.1 == n) with
+    | none => simp [hf] at hc
+    | some kv =>
+      simp only [hf, Option.map_some, Option.some.injEq] at hc
+      subst hc
+      exact hempty kv (List.mem_of_find?_eq_some hf)
+  exact ⟨c', g1, by rw [g2, hce]; simp, g3⟩
+
+/-- Inheritor names are pairwise distinct when container names are (each child appears once). -/
+theorem basedOn_nodup (tbl : CLookup) (b : String) (hu : UniqueKeys tbl) : (basedOn tbl b).Nodup := by
+  unfold basedOn UniqueKeys at *
+  exact List.Nodup.sublist (List.Sublist.map _ (List.filter_sublist)) hu
+
 end Spp.C17
